@@ -343,15 +343,22 @@ impl StructureChecker {
         let mut violations = Vec::new();
 
         for (parent, dir_files) in files_by_parent {
-            // Find rules that apply to this directory
+            // Sibling rules follow the same selection as limits and allow/deny lists: only the
+            // last declared structure rule whose scope matches the directory is consulted
+            let matched_parent = normalize_for_matching(parent);
+            let Some(consulted) = self
+                .rules
+                .iter()
+                .rposition(|rule| rule.matcher.is_match(&matched_parent))
+            else {
+                continue;
+            };
             let applicable_rules: Vec<_> = self
                 .sibling_rules
                 .iter()
                 .filter(|rule| match rule {
-                    CompiledSiblingRule::Directed { dir_matcher, .. } => {
-                        dir_matcher.is_match(normalize_for_matching(parent))
-                    }
-                    CompiledSiblingRule::Group { dir_matcher, .. } => dir_matcher.is_match(normalize_for_matching(parent)),
+                    CompiledSiblingRule::Directed { rule_index, .. }
+                    | CompiledSiblingRule::Group { rule_index, .. } => *rule_index == consulted,
                 })
                 .collect();
 
